@@ -117,6 +117,7 @@ func c10(c *Ctx) (*report.Result, error) {
 	res.RuleDoc["O10.3"] = "who may grow the pool: permits are released only by the connect loop's failure branches (once per acquire), the session callback and the balanced try-acquire of HasConnectionsAvailable; sessions enter the table only through AddConnection"
 	res.RuleDoc["O10.4"] = "owned connection / session: from a successful NewConnection (resp. sessionFn, Accept) every path to the loop head or a return closes the connection (resp. session) or hands it over - also during shutdown"
 	res.RuleDoc["O10.6"] = "the session table's locks cannot wedge their holder: inside a critical section of any mutex of transport/mux, transport/mux/session and transport/grpcutil no call acquires the same (non-reentrant) mutex again, and these mutexes nest in one order"
+	res.RuleDoc["O10.7"] = "session ids are never reused while the manager lives: the key under which AddConnection inserts a session derives from a field that is incremented by one in the same write-locked section on every insertion - a key derived from something that can shrink (the table's length) collides with a live session after any single death, the replacement overwrites a healthy session and the table stays one short"
 	res.RuleDoc["O10.5"] = "shutdown order: onClose waits for the provider, then closes every session of the table under the table lock, then signals; AddConnection tests the lifetime under the same lock"
 
 	loop := connectLoop(c, res)
@@ -144,6 +145,7 @@ func c10(c *Ctx) (*report.Result, error) {
 			res.Undec("O10.6", "critical sections of the mux packages", "", fmt.Sprintf("%d sections found", n))
 		}
 	}
+	checkSessionIDs(c, res, "O10.7")
 	return res, nil
 }
 
@@ -648,4 +650,110 @@ func checkShutdownOrder(c *Ctx, res *report.Result) {
 		}
 	}
 	_ = types.Typ
+}
+
+// checkSessionIDs: see O10.7.
+func checkSessionIDs(c *Ctx, res *report.Result, rule string) {
+	f := resolve(c, res, rule, anchor{"transport/mux", "*multiMuxManager", "AddConnection"})
+	if f == nil {
+		return
+	}
+	var ins *ssa.MapUpdate
+	for _, b := range f.Blocks {
+		for _, x := range b.Instrs {
+			if mu, ok := x.(*ssa.MapUpdate); ok {
+				if _, fld, okf := flow.FieldLoadOf(mu.Map); okf && fld == "muxes" {
+					ins = mu
+				}
+			}
+		}
+	}
+	if ins == nil {
+		res.Undec(rule, "AddConnection: insertion into muxes", fnPos(c.Prog, f), "not found")
+		return
+	}
+	// origin of the key: follow call arguments / conversions / slices of variadic args back to field loads or len()
+	fields := map[string]ssa.Value{}
+	usesLen := false
+	seen := map[ssa.Value]bool{}
+	var walk func(v ssa.Value, d int)
+	walk = func(v ssa.Value, d int) {
+		if v == nil || d > 12 || seen[v] {
+			return
+		}
+		seen[v] = true
+		if _, fld, ok := flow.FieldLoadOf(v); ok {
+			if _, isConst := v.(*ssa.Const); !isConst {
+				fields[fld] = v
+			}
+			return
+		}
+		switch x := v.(type) {
+		case *ssa.Call:
+			if bi, isB := x.Call.Value.(*ssa.Builtin); isB && bi.Name() == "len" {
+				usesLen = true
+				return
+			}
+			for _, a := range x.Call.Args {
+				walk(a, d+1)
+			}
+		case *ssa.Convert:
+			walk(x.X, d+1)
+		case *ssa.ChangeType:
+			walk(x.X, d+1)
+		case *ssa.MakeInterface:
+			walk(x.X, d+1)
+		case *ssa.BinOp:
+			walk(x.X, d+1)
+			walk(x.Y, d+1)
+		case *ssa.Slice:
+			walk(x.X, d+1)
+		case *ssa.Alloc:
+			// variadic argument array: the values stored into its elements
+			for _, r := range *x.Referrers() {
+				if st, ok := r.(*ssa.Store); ok && st.Addr == ssa.Value(x) {
+					walk(st.Val, d+1) // a local captured by a closure lives in a cell
+				}
+				if ia, ok := r.(*ssa.IndexAddr); ok {
+					for _, rr := range *ia.Referrers() {
+						if st, ok := rr.(*ssa.Store); ok {
+							walk(st.Val, d+1)
+						}
+					}
+				}
+			}
+		case *ssa.UnOp:
+			walk(x.X, d+1)
+		case *ssa.Phi:
+			for _, e := range x.Edges {
+				walk(e, d+1)
+			}
+		}
+	}
+	walk(ins.Key, 0)
+	if usesLen {
+		res.Viol(rule, "AddConnection: session id is never reused", instrPos(c.Prog, ins), "the id derives from len(...): the table shrinks when a session dies, so the next id equals that of a session that is still alive; the replacement overwrites it (one healthy session becomes unmanaged, the table stays one short, and its later cleanup removes the wrong entry)")
+		return
+	}
+	okCounter := ""
+	for fld := range fields {
+		for _, b := range f.Blocks {
+			for _, x := range b.Instrs {
+				st, isSt := x.(*ssa.Store)
+				if !isSt {
+					continue
+				}
+				fa, isFA := st.Addr.(*ssa.FieldAddr)
+				if !isFA || flow.FieldName(fa.X.Type(), fa.Field) != fld {
+					continue
+				}
+				if bo, isB := st.Val.(*ssa.BinOp); isB && bo.Op == token.ADD {
+					if k, isK := flow.ConstInt(bo.Y); isK && k == 1 && flow.HeldAt(f, st, "muxesLock", true) && flow.HeldAt(f, ins, "muxesLock", true) {
+						okCounter = fld
+					}
+				}
+			}
+		}
+	}
+	res.Check(okCounter != "", rule, "AddConnection: session id is never reused", instrPos(c.Prog, ins), "id from "+okCounter+", incremented by one under muxesLock with every insertion", fmt.Sprintf("the inserted key does not derive from a field that is incremented in the same locked section (origins: %v): ids may repeat", sortedKeys(fields)))
 }
